@@ -1,4 +1,4 @@
-#!/bin/sh
+#!/bin/bash
 # developer tool: run every quick check against each behaviour-preserving patch in a directory (false-alarm test).
 # usage: refactor_eval.sh <dir with *.diff> [ids...]   -> prints one line per patch: name rc-per-check, and details of non-zero ones
 DIR="$1"; shift
